@@ -24,7 +24,7 @@ RULE = (
     "reference-encoder-written) with bit flips, byte inserts / deletes, splices of two streams, truncations, duplicated "
     "frames; (c) structure-aware hostile streams built with my wire codec: declared table sizes 4097..2^32-1, frame / row / "
     "string lengths up to 2^62, quoted triples nested 1..300, options rows in odd places, 10^4 empty frames, ids 2^32-1, "
-    "invalid UTF-8, over-long varints, short typed literals that declare huge magnitudes (1E+200000000 and the like; alone, and repeated by following statements through omitted slots), plus four fixed large inputs (4*10^5 leading / 10^6 / 3*10^5 trailing empty frames, "
+    "invalid UTF-8, over-long varints, short typed literals that declare huge magnitudes (1E+200000000 and the like; alone, and repeated by following statements through omitted slots), three pairs of ~200 KB streams that differ only in a declared table size (peak RSS may differ by at most 48 MiB), plus four fixed large inputs (4*10^5 leading / 10^6 / 3*10^5 trailing empty frames, "
     "5*10^4 rows in one frame); each through parse_jelly_flat, parse_jelly_grouped and parse_jelly_to_graph of both "
     "integrations, from BytesIO, from a non-seekable short-reading raw source and from a BufferedReader over a non-seekable source whose first reads deliver 1 and 2 bytes; (d) atheris coverage-guided campaigns on "
     "the four flat / grouped entry points with a structure-aware custom mutator, seeded and empty corpus. Oracle, enforced "
@@ -380,6 +380,14 @@ def check_input(data: bytes):
 
 def check_case(case):
     if case.get("hex") is None:
+        if "declared_pair" in case:
+            for field, small, big in declared_size_pairs():
+                if field == case["declared_pair"]:
+                    r1, r2 = supervise([small], 120), supervise([big], 120)
+                    if r1["status"] == "ok" and r2["status"] == "ok" and r2["rss_growth_kb"] - r1["rss_growth_kb"] > DECLARED_DIFF_LIMIT_KB:
+                        return Violation("C17:balloon:declared-size", f"declared {field} 16 vs 4096: peak RSS differs by "
+                                         f"{(r2['rss_growth_kb'] - r1['rss_growth_kb']) // 1024} MiB", case)
+            return None
         if "fixed_index" in case:
             return check_input(fixed_hostile()[case["fixed_index"]])
         return None
@@ -528,8 +536,56 @@ def fixed_hostile():
     return out
 
 
+def declared_size_pairs():
+    """Pairs of streams that differ ONLY in a table size their options row declares (16 / 8 vs 4096) while using the same
+    entries: what a parser allocates may depend on what a stream contains, not on what it merely declares."""
+    pairs = []
+    for field in ("max_name_table_size", "max_prefix_table_size", "max_datatype_table_size"):
+        streams = []
+        for declared in (16, 4096):
+            opts = {"physical_type": 1, "logical_type": 1, "max_name_table_size": 4096, "max_prefix_table_size": 4096,
+                    "max_datatype_table_size": 4096, "version": 1}
+            opts[field] = declared
+            rows = [("options", opts)]
+            # the table under test is used within its small size (slots 1..8); the other two are used widely
+            for k in range(3000):
+                n_id = (k % 8) + 1 if field == "max_name_table_size" else k + 1
+                p_id = (k % 8) + 1 if field == "max_prefix_table_size" else k + 1
+                d_id = (k % 8) + 1 if field == "max_datatype_table_size" else k + 1
+                rows.append(("prefix", p_id, "http://p%d.example/" % k))
+                rows.append(("name", n_id, "n%d" % k))
+                rows.append(("datatype", d_id, "http://dt.example/t%d" % k))
+                rows.append(("triple", {"s": ("iri", p_id, n_id), "p": ("bnode", "p"), "o": ("lit", "v", ("dt", d_id))}))
+            streams.append(wire.enc_stream([{"rows": rows, "metadata": []}], True))
+        pairs.append((field, streams[0], streams[1]))
+    return pairs
+
+
+DECLARED_DIFF_LIMIT_KB = 48 * 1024
+
+
 def run_fixed(spec, acc):
     import hashlib
+
+    for field, small, big in declared_size_pairs():
+        r1 = supervise([small], 120)
+        r2 = supervise([big], 120)
+        acc.evaluations += 2
+        acc.counters["declared_size_pairs"] += 1
+        if r1["status"] != "ok" or r2["status"] != "ok":
+            v = check_input(big if r2["status"] != "ok" else small)
+            if v is not None and v.signature not in set(spec["known"]):
+                v.case = {"kind": "bytes", "hex": None, "len": len(big), "declared_pair": field}
+                acc.violations.append(v.to_json())
+                return
+            continue
+        diff = r2["rss_growth_kb"] - r1["rss_growth_kb"]
+        acc.extra.setdefault("declared_size_rss_diff_mib", {})[field] = diff // 1024
+        if diff > DECLARED_DIFF_LIMIT_KB and "C17:balloon:declared-size" not in set(spec["known"]):
+            acc.violations.append(Violation("C17:balloon:declared-size", f"two {len(big)}-byte streams that differ only in the "
+                                            f"declared {field} (16 vs 4096): peak RSS differs by {diff // 1024} MiB",
+                                            {"kind": "bytes", "hex": None, "len": len(big), "declared_pair": field}).to_json())
+            return
 
     known = set(spec["known"])
     for d in sorted(fixed_hostile(), key=len):
